@@ -80,7 +80,7 @@ theorem modLNu_ok (p : BlakeModLNu.P) (h : BlakeModLNu.outcome p = .ok) :
     have hν : 0 < p.poisson_ratio := by
       by_contra hc
       rw [not_lt] at hc
-      have h := ‹0 < p.lame_mod * (1 - 2 * p.poisson_ratio) / (2 * p.poisson_ratio)›
+      epv_deton_ctx_lt h : 0 < p.lame_mod * (1 - 2 * p.poisson_ratio) / (2 * p.poisson_ratio)
       have : p.lame_mod * (1 - 2 * p.poisson_ratio) / (2 * p.poisson_ratio) ≤ 0 :=
         div_nonpos_of_nonneg_of_nonpos (mul_nonneg (by linarith) (by linarith)) (by linarith)
       linarith
@@ -128,15 +128,10 @@ theorem modGE_ok (p : BlakeModGE.P) (h : BlakeModGE.outcome p = .ok) :
     have h1 : 3 * p.shear_mod - p.youngs_mod ≠ 0 := by intro h0; linarith
     have h1p : 0 < 3 * p.shear_mod - p.youngs_mod := by linarith
     have hG0 : p.shear_mod ≠ 0 := ne_of_gt hG
-    have e1 : 3 * (p.shear_mod * (p.youngs_mod - 2 * p.shear_mod) / (3 * p.shear_mod - p.youngs_mod)) + 2 * p.shear_mod
-        = p.shear_mod * p.youngs_mod / (3 * p.shear_mod - p.youngs_mod) := by fsimp; ring1
-    have e2 : p.shear_mod * (p.youngs_mod - 2 * p.shear_mod) / (3 * p.shear_mod - p.youngs_mod) + p.shear_mod
-        = p.shear_mod * p.shear_mod / (3 * p.shear_mod - p.youngs_mod) := by fsimp; ring1
-    have h2 : p.shear_mod * (p.youngs_mod - 2 * p.shear_mod) / (3 * p.shear_mod - p.youngs_mod) + p.shear_mod ≠ 0 := by
-      rw [e2]; positivity
-    have h3 : 0 < 3 * (p.shear_mod * (p.youngs_mod - 2 * p.shear_mod) / (3 * p.shear_mod - p.youngs_mod)) + 2 * p.shear_mod := by
-      rw [e1]; positivity
-    refine ⟨IsoMaterial.of_mul ?_ ?_ ?_ ?_ ?_ ?_, ?_, ?_⟩ <;> first | trivial | assumption | linarith | ring1 | (fsimp <;> ring1))
+    -- G > 0 and 3λ + 2G > 0 through the documented closed forms, whatever the code's λ and G look like
+    refine ⟨IsoMaterial.of_mul ?_ ?_ ?_ ?_ ?_ ?_, ?_, ?_⟩ <;>
+      first | trivial | assumption | linarith | positivity | ring1 | (fsimp <;> ring1)
+            | epv_deton_pos_via (p.shear_mod * p.youngs_mod / (3 * p.shear_mod - p.youngs_mod)))
 
 theorem modGNu_ok (p : BlakeModGNu.P) (h : BlakeModGNu.outcome p = .ok) :
     IsoMaterial (BlakeModGNu.lame_mod p) (BlakeModGNu.shear_mod p) (BlakeModGNu.youngs_mod p) (BlakeModGNu.poisson_ratio p) (BlakeModGNu.bulk_mod p) (BlakeModGNu.long_mod p)
@@ -151,15 +146,10 @@ theorem modGNu_ok (p : BlakeModGNu.P) (h : BlakeModGNu.outcome p = .ok) :
     have h1p : 0 < 1 - 2 * p.poisson_ratio := by linarith
     have h1 : 1 - 2 * p.poisson_ratio ≠ 0 := ne_of_gt h1p
     have hn : 0 < 1 + p.poisson_ratio := by linarith
-    have e1 : 3 * (2 * p.shear_mod * p.poisson_ratio / (1 - 2 * p.poisson_ratio)) + 2 * p.shear_mod
-        = 2 * p.shear_mod * (1 + p.poisson_ratio) / (1 - 2 * p.poisson_ratio) := by fsimp; ring1
-    have e2 : 2 * p.shear_mod * p.poisson_ratio / (1 - 2 * p.poisson_ratio) + p.shear_mod
-        = p.shear_mod / (1 - 2 * p.poisson_ratio) := by fsimp; ring1
-    have h2 : 2 * p.shear_mod * p.poisson_ratio / (1 - 2 * p.poisson_ratio) + p.shear_mod ≠ 0 := by
-      rw [e2]; positivity
-    have h3 : 0 < 3 * (2 * p.shear_mod * p.poisson_ratio / (1 - 2 * p.poisson_ratio)) + 2 * p.shear_mod := by
-      rw [e1]; positivity
-    refine ⟨IsoMaterial.of_mul ?_ ?_ ?_ ?_ ?_ ?_, ?_, ?_⟩ <;> first | trivial | assumption | linarith | ring1 | (fsimp <;> ring1))
+    -- G > 0 and 3λ + 2G > 0 through the documented closed forms, whatever the code's λ and G look like
+    refine ⟨IsoMaterial.of_mul ?_ ?_ ?_ ?_ ?_ ?_, ?_, ?_⟩ <;>
+      first | trivial | assumption | linarith | positivity | ring1 | (fsimp <;> ring1)
+            | epv_deton_pos_via (2 * p.shear_mod * (1 + p.poisson_ratio) / (1 - 2 * p.poisson_ratio)))
 
 theorem modGK_ok (p : BlakeModGK.P) (h : BlakeModGK.outcome p = .ok) :
     IsoMaterial (BlakeModGK.lame_mod p) (BlakeModGK.shear_mod p) (BlakeModGK.youngs_mod p) (BlakeModGK.poisson_ratio p) (BlakeModGK.bulk_mod p) (BlakeModGK.long_mod p)
@@ -241,20 +231,10 @@ theorem modEK_ok (p : BlakeModEK.P) (h : BlakeModEK.outcome p = .ok) :
       linarith
     have h1 : 9 * p.bulk_mod - p.youngs_mod ≠ 0 := ne_of_gt h9
     have hK0 : p.bulk_mod ≠ 0 := ne_of_gt hK
-    have e1 : 3 * (3 * p.bulk_mod * (3 * p.bulk_mod - p.youngs_mod) / (9 * p.bulk_mod - p.youngs_mod))
-          + 2 * (3 * p.bulk_mod * p.youngs_mod / (9 * p.bulk_mod - p.youngs_mod)) = 3 * p.bulk_mod := by
-      fsimp; ring1
-    have e2 : 3 * p.bulk_mod * (3 * p.bulk_mod - p.youngs_mod) / (9 * p.bulk_mod - p.youngs_mod)
-          + 3 * p.bulk_mod * p.youngs_mod / (9 * p.bulk_mod - p.youngs_mod)
-        = 9 * p.bulk_mod * p.bulk_mod / (9 * p.bulk_mod - p.youngs_mod) := by fsimp; ring1
-    have h2 : 3 * p.bulk_mod * (3 * p.bulk_mod - p.youngs_mod) / (9 * p.bulk_mod - p.youngs_mod)
-          + 3 * p.bulk_mod * p.youngs_mod / (9 * p.bulk_mod - p.youngs_mod) ≠ 0 := by
-      rw [e2]; positivity
-    have h3 : 0 < 3 * (3 * p.bulk_mod * (3 * p.bulk_mod - p.youngs_mod) / (9 * p.bulk_mod - p.youngs_mod))
-          + 2 * (3 * p.bulk_mod * p.youngs_mod / (9 * p.bulk_mod - p.youngs_mod)) := by
-      rw [e1]; positivity
-    have h4 : 0 < 3 * p.bulk_mod * p.youngs_mod / (9 * p.bulk_mod - p.youngs_mod) := by positivity
-    refine ⟨IsoMaterial.of_mul ?_ ?_ ?_ ?_ ?_ ?_, ?_, ?_⟩ <;> first | trivial | assumption | linarith | ring1 | (fsimp <;> ring1))
+    -- G > 0 and 3λ + 2G > 0 through the documented closed forms, whatever the code's λ and G look like
+    refine ⟨IsoMaterial.of_mul ?_ ?_ ?_ ?_ ?_ ?_, ?_, ?_⟩ <;>
+      first | trivial | assumption | linarith | positivity | ring1 | (fsimp <;> ring1)
+            | epv_deton_pos_via (3 * p.bulk_mod))
 
 theorem modEM_ok (p : BlakeModEM.P) (h : BlakeModEM.outcome p = .ok) :
     IsoMaterial (BlakeModEM.lame_mod p) (BlakeModEM.shear_mod p) (BlakeModEM.youngs_mod p) (BlakeModEM.poisson_ratio p) (BlakeModEM.bulk_mod p) (BlakeModEM.long_mod p)
@@ -267,16 +247,12 @@ theorem modEM_ok (p : BlakeModEM.P) (h : BlakeModEM.outcome p = .ok) :
     simp only [not_le, not_lt] at *
     have hE : 0 < p.youngs_mod := by linarith
     have hM : 0 < p.long_mod := by linarith
-    have hx : 0 ≤ p.youngs_mod ^ (2 : ℕ) + 9 * p.long_mod ^ (2 : ℕ) - 10 * p.youngs_mod * p.long_mod := by linarith
-    generalize hS : (p.youngs_mod ^ (2 : ℕ) + 9 * p.long_mod ^ (2 : ℕ) - 10 * p.youngs_mod * p.long_mod) ^ ((1 : ℝ) / 2) = S at *
-    have hS0 : 0 ≤ S := hS ▸ rpow_half_nonneg _
-    have hS2 : S * S = p.youngs_mod ^ (2 : ℕ) + 9 * p.long_mod ^ (2 : ℕ) - 10 * p.youngs_mod * p.long_mod :=
-      hS ▸ rpow_half_mul_self hx
+    epv_deton_rpow_half_gen S hS0 hS2
     have hEM : 0 < p.youngs_mod * p.long_mod := mul_pos hE hM
     have h4M : 0 < 4 * p.long_mod := by linarith
     -- ν < 1/2  gives  S < 3M - E
     have hlt : S < 3 * p.long_mod - p.youngs_mod := by
-      have h := ‹1 / 4 * (p.youngs_mod - p.long_mod + S) / p.long_mod < 1 / 2›
+      epv_deton_ctx_lt h : 1 / 4 * (p.youngs_mod - p.long_mod + S) / p.long_mod < 1 / 2
       rw [div_lt_iff₀ hM] at h
       linarith
     have hG : 0 < 1 / 8 * (3 * p.long_mod + p.youngs_mod - S) := by linarith
@@ -302,19 +278,10 @@ theorem modNuK_ok (p : BlakeModNuK.P) (h : BlakeModNuK.outcome p = .ok) :
     have h1p : 0 < 1 - 2 * p.poisson_ratio := by linarith
     have hn : 0 < 1 + p.poisson_ratio := by linarith
     have hn0 : 1 + p.poisson_ratio ≠ 0 := ne_of_gt hn
-    have e1 : 3 * (3 * p.bulk_mod * p.poisson_ratio / (1 + p.poisson_ratio))
-          + 2 * (3 * p.bulk_mod * (1 - 2 * p.poisson_ratio) / (2 * (1 + p.poisson_ratio))) = 3 * p.bulk_mod := by
-      fsimp; ring1
-    have e2 : 3 * p.bulk_mod * p.poisson_ratio / (1 + p.poisson_ratio)
-          + 3 * p.bulk_mod * (1 - 2 * p.poisson_ratio) / (2 * (1 + p.poisson_ratio))
-        = 3 * p.bulk_mod / (2 * (1 + p.poisson_ratio)) := by fsimp; ring1
-    have h2 : 3 * p.bulk_mod * p.poisson_ratio / (1 + p.poisson_ratio)
-          + 3 * p.bulk_mod * (1 - 2 * p.poisson_ratio) / (2 * (1 + p.poisson_ratio)) ≠ 0 := by
-      rw [e2]; positivity
-    have h3 : 0 < 3 * (3 * p.bulk_mod * p.poisson_ratio / (1 + p.poisson_ratio))
-          + 2 * (3 * p.bulk_mod * (1 - 2 * p.poisson_ratio) / (2 * (1 + p.poisson_ratio))) := by
-      rw [e1]; positivity
-    refine ⟨IsoMaterial.of_mul ?_ ?_ ?_ ?_ ?_ ?_, ?_, ?_⟩ <;> first | trivial | assumption | linarith | ring1 | (fsimp <;> ring1))
+    -- G > 0 and 3λ + 2G > 0 through the documented closed forms, whatever the code's λ and G look like
+    refine ⟨IsoMaterial.of_mul ?_ ?_ ?_ ?_ ?_ ?_, ?_, ?_⟩ <;>
+      first | trivial | assumption | linarith | positivity | ring1 | (fsimp <;> ring1)
+            | epv_deton_pos_via (3 * p.bulk_mod))
 
 theorem modNuM_ok (p : BlakeModNuM.P) (h : BlakeModNuM.outcome p = .ok) :
     IsoMaterial (BlakeModNuM.lame_mod p) (BlakeModNuM.shear_mod p) (BlakeModNuM.youngs_mod p) (BlakeModNuM.poisson_ratio p) (BlakeModNuM.bulk_mod p) (BlakeModNuM.long_mod p)
